@@ -190,6 +190,8 @@ pub struct C14;
 impl C14 {
     fn gen(g: &mut Gen, tier: Tier) -> TrainCase {
         let mut c = gen_set_speed_case(g, tier, true);
+        // the trace, not the initial state, is what the first step starts from
+        c.init_speed_zero = g.bool(0.2);
         // rejection clause: a negative entry at a chosen index
         if g.bool(0.15) && c.trace.len() >= 2 {
             let i = g.idx(c.trace.len());
@@ -261,6 +263,7 @@ impl C14 {
                 cx.fail("C14|energy|energy_whl_out-step!=pwr*trace-dt", format!("saved step {k}: energy advanced {de} vs pwr {got} * dt {dt}"));
             }
         }
+        cx.label_if(case.init_speed_zero && case.trace[0].1 > 0.0, "initial_state_at_rest_but_trace_starts_moving");
         cx.label_if(clipped_hi, "clipped_at_traction_limit");
         cx.label_if(clipped_lo, "clipped_at_dyn_brake_limit");
         cx.count("steps_checked", st.len().saturating_sub(1) as u64);
